@@ -147,6 +147,13 @@ def program(rng):
     g.emit(1, "return (r & 1) ? 0 : 0;")
     g.emit(0, "}")
     files["t.c"] = "\n".join(g.lines) + "\n"
+    if rng.random() < 0.08:
+        # rarely: a one-line macro expanding to a loop around a large switch (35-50 blocks on one source line)
+        nc = rng.randrange(33, 46)
+        m = macro_loop_program(nc)["t.c"].split("\n")
+        extra = "\n".join(m[1:5]) + "\n"          # the #define and the function `big`
+        t = files["t.c"].replace("int main(int argc, char **argv) {", extra + "int main(int argc, char **argv) {")
+        files["t.c"] = t.replace("  int r = 0;\n", "  int r = 0;\n  r += big((x & 63) + 2);\n", 1)
     return files
 
 
@@ -205,6 +212,23 @@ int main(int argc, char **argv) {
 }
 """}, [[], ["1", "2"]]),
 ]
+
+
+def macro_loop_program(ncases=34, mod=None):
+    """a one-line macro that expands to a for loop around a large switch: 35-50 blocks on ONE source line inside a
+    structured loop (each iteration is one of `ncases` simple cycles; the enumeration stays fast)"""
+    mod = mod or ncases
+    cases = " ".join("case %d: s %s %d; break;" % (k, ["+=", "-=", "^="][k % 3], k + 1) for k in range(ncases - 1))
+    macro = "#define STEP(i, s) for (int i = 0; i < n; i++) { switch ((i * 7 + s) %% %d) { %s default: s += %d; } }" % (mod, cases, ncases)
+    src = ("#include <stdlib.h>\n" + macro + "\n"
+           "int big(int n) { int s = 0;\n"
+           "  STEP(i, s)\n"
+           "  return s; }\n"
+           "int main(int argc, char **argv) { return big(argc > 1 ? atoi(argv[1]) : 3) & 0; }\n")
+    return {"t.c": src}
+
+
+SHAPES.append((macro_loop_program(34), [["200"], ["7"]]))
 
 
 def arg_sets(rng, k):
